@@ -671,8 +671,12 @@ func (fs *fsMutable) createNode(lk []byte, parentINode fuseops.InodeID, childNam
 		iNodeID = parentINode
 	}
 
-	// lookup
-	fs.lookupTree, _, _ = fs.lookupTree.Insert(lk, lookupEntry{iNode: iNodeID})
+	// lookup: the entry records the kind of node (rename checks whether its target is a directory)
+	var lookupMode os.FileMode = fileDefaultMode
+	if nodeType == fuseutil.DT_Directory {
+		lookupMode = dirDefaultMode
+	}
+	fs.lookupTree, _, _ = fs.lookupTree.Insert(lk, lookupEntry{iNode: iNodeID, mode: lookupMode})
 
 	// Default to common case of create file
 	var linkCount = fileLinkCount
